@@ -57,3 +57,27 @@ def register(reg):
              ensures=[('property', 'implies(old_self.pos >= old_self.len, result is None and self.pos == old_self.pos)'),
                       ('property', 'implies(old_self.pos < old_self.len, result == old_self.textstr[old_self.pos] and self.pos == old_self.pos + 1)'),
                       *KEEP])
+
+
+    # ---- the Buffer cursor: the same token rule and the same termination argument (C09 "both input implementations")
+    Bf = 'tatsu/input/buffer.py'
+    KB = ['self.len == old_self.len', 'self.textstr == old_self.textstr', 'self.buffer == old_self.buffer']
+    contract(reg, f'{Bf}:BufferCursor.goto', P, {'self': 'BCursor', 'pos': 'int'}, ret='None', modifies=['self'], wf=False,
+             ensures=[('property', 'self.pos == max(0, min(self.buffer.len, pos))'), *KB])
+    contract(reg, f'{Bf}:BufferCursor.move', P, {'self': 'BCursor', 'n': 'int'}, ret='None', modifies=['self'], wf=False,
+             ensures=[('property', 'self.pos == max(0, min(self.buffer.len, old_self.pos + n))'), *KB])
+    contract(reg, f'{Bf}:BufferCursor.is_name', P, {'self': 'BCursor', 's': 'str'}, ret='bool', verify=False,
+             ensures=['result == uf_is_name(self.buffer._namechar_set, s)'],
+             note='same reason as TextLinesCursor.is_name')
+    contract(reg, f'{Bf}:BufferCursor.match', P, {'self': 'BCursor', 'token': 'str'}, ret='Val', modifies=['self'],
+             ensures=[('property', 'implies(spec_token_matches_b(old_self, old_self.pos, token), result == token and self.pos == min(self.len, old_self.pos + len(token)))'),
+                      ('property', 'implies(not spec_token_matches_b(old_self, old_self.pos, token), result is None and self.pos == old_self.pos)'),
+                      *KB])
+    contract(reg, f'{Bf}:BufferCursor._matchre_fast', P, {'self': 'BCursor', 'pattern': 'Val'}, ret='bool', modifies=['self'], verify=False,
+             ensures=['implies(result, old_self.pos <= self.pos and self.pos <= self.len)',
+                      'implies(not result, self.pos == old_self.pos)', *KB],
+             note='re.match is external: a match at pos ends in [pos, len]; it may be empty')
+    contract(reg, f'{Bf}:BufferCursor._eat_regex', P, {'self': 'BCursor', 'regex': 'Val'}, ret='None', modifies=['self'],
+             ensures=[('property', 'self.pos >= old_self.pos'), 'self.pos <= self.len', *KB],
+             invariants={0: ['p == self.pos', 'self.pos >= old_self.pos', 'self.pos <= self.len', *KB]},
+             decreases={0: 'self.len - p'})
